@@ -41,11 +41,11 @@ func c18spec(u alias.Unit, master core.SignedData, v2 bool) alias.Spec {
 				defer d.RUnlock()
 				return d.data
 			}
-			go func() { time.Sleep(300 * time.Microsecond); registered <- struct{}{} }()
+			go func() { time.Sleep(3 * time.Millisecond); registered <- struct{}{} }()
 		} else {
 			d := NewMemDB(alias.NewNopDeadliner())
 			d.queryCallback = func(q []readQuery) {
-				if len(q) > 0 {
+				if len(q) >= c18nBlocked {
 					select {
 					case registered <- struct{}{}:
 					default:
@@ -75,11 +75,14 @@ func c18spec(u alias.Unit, master core.SignedData, v2 bool) alias.Spec {
 			v   core.SignedData
 			err error
 		}
-		blocked := make(chan res, 1)
-		go func() {
-			v, err := db.Await(ctx, duty, c18pk, sub)
-			blocked <- res{v, err}
-		}()
+		// several readers wait for the same key before it is stored: one Store resolves them all
+		blocked := make(chan res, c18nBlocked)
+		for k := 0; k < c18nBlocked; k++ {
+			go func() {
+				v, err := db.Await(ctx, duty, c18pk, sub)
+				blocked <- res{v, err}
+			}()
+		}
 		select {
 		case <-registered:
 		case <-time.After(10 * time.Second):
@@ -95,10 +98,16 @@ func c18spec(u alias.Unit, master core.SignedData, v2 bool) alias.Spec {
 			return
 		}
 		w.MutateInputs()
-		b := <-blocked
-		w.Outcome("Await(blocked)", b.err)
-		if b.err == nil {
-			w.Result("blocked-reader", b.v)
+		for k := 0; k < c18nBlocked; k++ {
+			b := <-blocked
+			w.Outcome("Await(blocked)", b.err)
+			if b.err == nil {
+				n := "blocked-reader"
+				if k > 0 {
+					n += string(rune('1' + k))
+				}
+				w.Result(n, b.v)
+			}
 		}
 		for _, n := range []string{"reader1", "reader2"} {
 			v, err := db.Await(ctx, duty, c18pk, sub)
@@ -119,6 +128,8 @@ func c18spec(u alias.Unit, master core.SignedData, v2 bool) alias.Spec {
 		w.Held("db.data", data())
 	}}
 }
+
+const c18nBlocked = 3
 
 func TestVerifC18AggSigDB(t *testing.T) {
 	r := enumx.New(t, "C18")
